@@ -105,7 +105,7 @@ func main() {
 	timeout := flag.Int("timeout", 0, "solver timeout seconds (default 10 quick / 60 thorough)")
 	outdir := flag.String("outdir", "", "where evidence/ and replays/ are written (default: the verif root)")
 	flag.Parse()
-	debug.SetGCPercent(400)
+	debug.SetGCPercent(150)
 	if pf := os.Getenv("VERIF_PROF"); pf != "" {
 		if f, err := os.Create(pf); err == nil {
 			pprof.StartCPUProfile(f)
@@ -189,8 +189,8 @@ func run(repo, verif, prop, tier, only, dump string, list, verbose bool, timeout
 				continue
 			}
 			if o.IsCover {
-				q := ex.buildQuery(o, subgoal{nil, False}, "", nil)
-				jobs = append(jobs, job{res: r, query: q, sg: subgoal{nil, False}})
+				q := ex.buildQuery(o, subgoal{hyps: nil, goal: False}, "", nil)
+				jobs = append(jobs, job{res: r, query: q, sg: subgoal{hyps: nil, goal: False}})
 				r.Subgoals = 1
 				continue
 			}
@@ -211,6 +211,23 @@ func run(repo, verif, prop, tier, only, dump string, list, verbose bool, timeout
 				j := job{res: r, sgIdx: i, sg: sg, ex: ex, lazy: true}
 				for _, asg := range ex.altGoals(sg) {
 					j.alts = append(j.alts, job{res: r, sgIdx: i, sg: asg, ex: ex, lazy: true})
+				}
+				if sg.fallback != nil {
+					// guard not provable: prove the formula itself
+					var fsgs []subgoal
+					ex.noGuardShortcut = true
+					ex.knownHyps = ex.knownConjuncts(o)
+					ex.knownPath = o.Path
+					ex.splitGoal(sg.fallback, sg.hyps, &fsgs)
+					ex.knownHyps = nil
+					ex.noGuardShortcut = false
+					for _, fsg := range fsgs {
+						j.alts = append(j.alts, job{res: r, sgIdx: i, sg: fsg, ex: ex, lazy: true})
+					}
+					if len(fsgs) == 0 {
+						j.alts = nil
+						continue // formula already discharged by the splitter
+					}
 				}
 				jobs = append(jobs, j)
 			}
@@ -243,6 +260,9 @@ func run(repo, verif, prop, tier, only, dump string, list, verbose bool, timeout
 		os.MkdirAll(dump, 0o755)
 		for ji := range jobs {
 			j := &jobs[ji]
+			if flt := os.Getenv("VERIF_DUMPFILTER"); flt != "" && !strings.Contains(fmt.Sprintf("%s.%d.", sanitize(j.res.O.Name), j.sgIdx), flt) {
+				continue
+			}
 			if j.lazy {
 				j.render("light")
 				j.render("light2")
@@ -322,7 +342,11 @@ func run(repo, verif, prop, tier, only, dump string, list, verbose bool, timeout
 				for ai := range j.alts {
 					a := &j.alts[ai]
 					ta := time.Now()
-					ar := SolveN(a.render("light"), 25, false, 2)
+					aq := a.render("light2")
+					if aq == "" {
+						aq = a.render("light")
+					}
+					ar := SolveN(aq, 40, false, 2)
 					stage := "light"
 					if ar.Status != "unsat" {
 						ar = Solve(a.render("full"), to, false)
@@ -339,9 +363,17 @@ func run(repo, verif, prop, tier, only, dump string, list, verbose bool, timeout
 				}
 				if allOK {
 					sr = last
-					sr.Solver += "(bytes)"
+					sr.Solver += "(alt)"
 				} else if last.Status == "sat" {
 					sr = last
+				}
+			}
+			// the rendered queries of a finished job are not needed again
+			if dump == "" {
+				j.tiny, j.light, j.light2, j.query = "", "", "", ""
+				for ai := range j.alts {
+					a := &j.alts[ai]
+					a.tiny, a.light, a.light2, a.query = "", "", "", ""
 				}
 			}
 			mu.Lock()
